@@ -171,6 +171,44 @@ def src_line(s, edits):
     return s.count('\n', 0, sorted(edits)[0][0]) + 1
 
 
+def run(prop, limit=12, seed=1, jobs=4):
+    """Thorough tier: a sample of behaviour-preserving variants of the functions that serve `prop`, deductive part alone.
+    Informational: a false alarm found here is a defect of the machinery (reported as such), never a violation of /repo."""
+    cands = []
+    seen = set()
+    for file, fn, unit, props in functions():
+        if prop not in props:
+            continue
+        src = open(os.path.join(SRC, file), encoding='utf-8').read()
+        try:
+            span = find_item(src, 'fn', fn)
+        except ValueError:
+            continue
+        for kind, edits in variants_of(src, span):
+            key = (file, fn, unit, kind, tuple(edits))
+            if key not in seen:
+                seen.add(key)
+                cands.append((file, fn, unit, [prop], kind, edits))
+    random.Random(seed).shuffle(cands)
+    total = len(cands)
+    cands = cands[:limit]
+    works = [tempfile.mkdtemp(prefix='verif-bsw-work-') for _ in range(jobs)]
+    res = []
+    try:
+        with cf.ThreadPoolExecutor(max_workers=jobs) as ex:
+            for r in ex.map(one, [(1000 + k, c, works[k % jobs]) for k, c in enumerate(cands)]):
+                if r:
+                    res.append(r)
+    finally:
+        for w in works:
+            shutil.rmtree(w, ignore_errors=True)
+    vs = [v for r in res for v in (r.get('verdicts') or {}).values()]
+    return {'level': 'behaviour-preserving token rewrites (if/else swapped under negation, parenthesised conditions, statements / arm bodies / initialisers wrapped in blocks, == operands swapped), accepted by cargo check, deductive part alone: a violation here would be a false alarm of the machinery',
+            'variants_available': total, 'sampled': len(res), 'rustc_rejects': sum(1 for r in res if r.get('verdict') == 'rustc-rejects'),
+            'held': sum(1 for v in vs if v == 'held'), 'undecided': sum(1 for v in vs if v.startswith('undecided')),
+            'false_alarms': [{'fn': r['fn'], 'kind': r['kind'], 'line': r['line'], 'verdicts': r['verdicts']} for r in res if any(v.startswith('FALSE-ALARM') for v in (r.get('verdicts') or {}).values())]}
+
+
 def main():
     args = sys.argv[1:]
     def opt(name, default):
